@@ -264,6 +264,58 @@ theorem Reachable.rec_inv {cfg : Config S} {P : NodeId → Proto S σ} {I : Worl
   | step hw ih => exact hs _ hw ih
   | ext n p hw ih => exact he _ n p hw ih
 
+/-- a step out of which the executed event's callback lets an exception escape keeps the world sound and
+    does not move the clock back -/
+theorem stepRaised_inv (cfg : Config S) (hdt : 0 ≤ cfg.dt) (P : NodeId → Proto S σ) (w : World S σ)
+    (hw : WInv w) : WInv (stepRaised cfg P w) ∧ w.loop.now ≤ (stepRaised cfg P w).loop.now := by
+  unfold stepRaised
+  split
+  · exact ⟨hw, Int.le_refl _⟩
+  · have hi : WInv (if w.initialized then w else initialise cfg P w) ∧
+        (if w.initialized then w else initialise cfg P w).loop.now = w.loop.now := by
+      split
+      · exact ⟨hw, rfl⟩
+      · exact ⟨(initialise_inv cfg P w hw).1, (initialise_inv cfg P w hw).2.1⟩
+    generalize (if w.initialized then w else initialise cfg P w) = w1 at hi
+    obtain ⟨hw1, hn1⟩ := hi
+    simp only
+    split
+    · have := finalise_inv cfg P w1 hw1
+      exact ⟨this.1, by rw [this.2.1, hn1]; exact Int.le_refl _⟩
+    · split
+      · exact ⟨hw1, by rw [hn1]; exact Int.le_refl _⟩
+      · rename_i e rest hq
+        have hp : WInv (popped e rest w1) := popped_inv hw1 hq
+        have hle : w1.loop.now ≤ e.ts := hw1.ge_now e (by rw [hq]; exact List.mem_cons_self)
+        have ex := ext_execEv cfg hdt P e (popped e rest w1)
+        refine ⟨ex.inv hp, ?_⟩
+        show w.loop.now ≤ (execEv cfg P e (popped e rest w1)).loop.now
+        rw [ex.now_eq, ← hn1]
+        exact hle
+
+/-- `Reachable` extended by steps out of which a callback's exception escaped while the driver kept going
+    (the *tolerant stepped driver*): the closure under `step`, externally issued programs and `stepRaised` -/
+inductive ReachableT (cfg : Config S) (P : NodeId → Proto S σ) : World S σ → Prop
+  | init : ReachableT cfg P (init cfg P)
+  | step {w : World S σ} : ReachableT cfg P w → ReachableT cfg P (step cfg P w).1
+  | ext {w : World S σ} (n : NodeId) (p : Prog S σ) : ReachableT cfg P w → ReachableT cfg P (runProg cfg n p w).1
+  | raised {w : World S σ} : ReachableT cfg P w → ReachableT cfg P (stepRaised cfg P w)
+
+theorem Reachable.toT {cfg : Config S} {P : NodeId → Proto S σ} {w : World S σ}
+    (h : Reachable cfg P w) : ReachableT cfg P w := by
+  induction h with
+  | init => exact .init
+  | step _ ih => exact ih.step
+  | ext n p _ ih => exact ih.ext n p
+
+theorem reachableT_inv {cfg : Config S} (hdt : 0 ≤ cfg.dt) {P : NodeId → Proto S σ} {w : World S σ}
+    (h : ReachableT cfg P w) : WInv w := by
+  induction h with
+  | init => exact init_inv cfg P hdt
+  | step _ ih => exact (step_inv cfg hdt P _ ih).1
+  | ext n p _ ih => exact (ext_runProg cfg n p _).inv ih
+  | raised _ ih => exact (stepRaised_inv cfg hdt P _ ih).1
+
 theorem reachable_inv {cfg : Config S} (hdt : 0 ≤ cfg.dt) {P : NodeId → Proto S σ} {w : World S σ}
     (h : Reachable cfg P w) : WInv w :=
   h.rec_inv (init_inv cfg P hdt) (fun w _ hw => (step_inv cfg hdt P w hw).1)
